@@ -12,7 +12,7 @@ git -C $W checkout -q --detach $(git -C /repo rev-parse HEAD) 2>/dev/null; git -
 echo "== demo on the unchanged tree"; (cd $OUT/demo && CARGO_TARGET_DIR=${T}_demo bash run.sh $W >/tmp/seed_demo0.log 2>&1); echo "demo_unchanged_exit=$?"
 if ! git -C $W apply $OUT/patch.diff; then echo "PATCH DOES NOT APPLY"; exit 3; fi
 echo "== test suite with the change"
-(cd $W && CARGO_TARGET_DIR=$T cargo test --workspace --no-fail-fast --offline 2>&1 | grep -E "^test result|FAILED|^error" | sort | uniq -c)
+(cd $W && CARGO_TARGET_DIR=$T cargo test --workspace --no-fail-fast --offline 2>&1 | grep -E "^test result|FAILED|^error")
 echo "== demo on the changed tree"; (cd $OUT/demo && CARGO_TARGET_DIR=${T}_demo bash run.sh $W >/tmp/seed_demo1.log 2>&1); echo "demo_changed_exit=$?"
 for c in $CHECKS; do
   echo "== check $c against the changed tree"
